@@ -1,12 +1,18 @@
 /-
   C19 — Reload swaps the whole configuration or none of it.
-  FIRST-CLAIM version: the reload state machine (pure part of `load_zone_configuration` +
-  `reload_task`).  Signal delivery, the tokio RwLock and the file system are observed on the real
-  binary by the reload stream, not modelled.
+  The reload state machine (pure part of `load_zone_configuration` + `reload_task`), over
+  arbitrary histories of reload attempts.  Signal delivery, the tokio RwLock and the file system
+  are observed on the real binary by the reload stream, not modelled.
+  Property theorems only; `reloadHistory` and the helper lemmas (`srv_…`) live in
+  Proofs/ServerLemmas.lean.
 -/
-import Resolved.Model.Server
+import Resolved.Proofs.ServerLemmas
+import Resolved.Props.C01
+import Resolved.Props.C04
 
 namespace Resolved
+
+/-! ## 0. First-claim theorems (kept) -/
 
 /-- One unreadable or invalid file (zone or hosts) makes the whole load fail … -/
 theorem C19_one_bad_file_fails_load (zoneFiles : List (Option Zone)) (hosts : Option Zone)
@@ -30,10 +36,266 @@ theorem C19_all_or_nothing (live : Zones) (loaded : Option Zones) :
 /-- A query is answered from exactly one configuration value: the server's answer is a function
     of the `Zones` value it read, so with a reload in progress it is the answer under the old or
     under the new configuration, entirely. -/
-theorem C19_snapshot (old new : Zones) (loaded : Option Zones) (buf : List UInt8) (swapped : Bool) :
+theorem C19_snapshot (old _new : Zones) (loaded : Option Zones) (buf : List UInt8) (swapped : Bool) :
     let live := if swapped then (reload old loaded).1 else old
     serveUdp true (authOnlyResolver live) buf = serveUdp true (authOnlyResolver old) buf ∨
     serveUdp true (authOnlyResolver live) buf = serveUdp true (authOnlyResolver (reload old loaded).1) buf := by
   cases swapped <;> simp
+
+/-! ## 1. Histories of reload attempts -/
+
+/-- **Last good configuration.**  After ANY sequence of reload attempts (`some z` = every file
+    loaded and gave `z`; `none` = some file failed) the live configuration is exactly the most
+    recent successfully loaded one, or the initial one if none succeeded. -/
+theorem C19_history_last_good (init : Zones) (hist : List (Option Zones)) :
+    reloadHistory init hist = ((hist.filterMap id).getLast?).getD init :=
+  srv_reloadHistory_last_good hist init
+
+/-- one step of the history is `reload` -/
+theorem C19_history_step (init : Zones) (hist : List (Option Zones)) (l : Option Zones) :
+    reloadHistory init (hist ++ [l]) = (reload (reloadHistory init hist) l).1 := by
+  rw [srv_reloadHistory_append]; rfl
+
+/-- **Nothing of the old lingers.**  The configuration after a successful reload does not depend
+    on the one before it … -/
+theorem C19_nothing_lingers (live1 live2 z : Zones) :
+    (reload live1 (some z)).1 = (reload live2 (some z)).1 ∧ (reload live1 (some z)).1 = z ∧
+    (reload live1 (some z)).2 = true :=
+  ⟨rfl, rfl, rfl⟩
+
+/-- … and neither does the live configuration after any history whose last attempt succeeded:
+    it is that attempt's configuration, whatever the initial configuration and whatever was
+    loaded or failed before. -/
+theorem C19_nothing_lingers_history (init1 init2 : Zones) (hist1 hist2 : List (Option Zones))
+    (z : Zones) :
+    reloadHistory init1 (hist1 ++ [some z]) = z ∧
+    reloadHistory init1 (hist1 ++ [some z]) = reloadHistory init2 (hist2 ++ [some z]) := by
+  rw [C19_history_step, C19_history_step]; exact ⟨rfl, rfl⟩
+
+/-- … also when failed attempts follow the successful one. -/
+theorem C19_last_success_wins (init : Zones) (before after : List (Option Zones)) (z : Zones)
+    (hfail : ∀ l ∈ after, l = none) :
+    reloadHistory init (before ++ some z :: after) = z := by
+  rw [srv_reloadHistory_append, srv_reloadHistory_cons, srv_reload_some,
+    srv_reloadHistory_all_failed _ _ hfail]
+
+/-! ## 2. Failed reloads are invisible -/
+
+/-- A failed reload changes no answer, over UDP or TCP … -/
+theorem C19_failed_reload_invisible (live : Zones) (buf : List UInt8) (n : Nat) :
+    (reload live none).1 = live ∧ (reload live none).2 = false ∧
+    serveUdp true (authOnlyResolver (reload live none).1) buf = serveUdp true (authOnlyResolver live) buf ∧
+    serveTcp true (authOnlyResolver (reload live none).1) n buf
+      = serveTcp true (authOnlyResolver live) n buf :=
+  ⟨rfl, rfl, rfl, rfl⟩
+
+/-- … and neither does a whole run of failed reloads after any history. -/
+theorem C19_failed_suffix_invisible (init : Zones) (hist failed : List (Option Zones))
+    (hfail : ∀ l ∈ failed, l = none) (buf : List UInt8) (n : Nat) :
+    reloadHistory init (hist ++ failed) = reloadHistory init hist ∧
+    serveUdp true (authOnlyResolver (reloadHistory init (hist ++ failed))) buf
+      = serveUdp true (authOnlyResolver (reloadHistory init hist)) buf ∧
+    serveTcp true (authOnlyResolver (reloadHistory init (hist ++ failed))) n buf
+      = serveTcp true (authOnlyResolver (reloadHistory init hist)) n buf := by
+  have h : reloadHistory init (hist ++ failed) = reloadHistory init hist := by
+    rw [srv_reloadHistory_append, srv_reloadHistory_all_failed _ _ hfail]
+  rw [h]; exact ⟨rfl, rfl, rfl⟩
+
+/-- If no attempt ever succeeded the server still runs on its initial configuration. -/
+theorem C19_all_failed (init : Zones) (hist : List (Option Zones)) (hfail : ∀ l ∈ hist, l = none) :
+    reloadHistory init hist = init :=
+  srv_reloadHistory_all_failed init hist hfail
+
+/-! ## 3. Loading is all or nothing and looks at the files only -/
+
+/-- A load succeeds only if every zone file and the hosts files loaded … -/
+theorem C19_load_all_files (zoneFiles : List (Option Zone)) (hosts : Option Zone) (zs : Zones)
+    (h : loadConfiguration zoneFiles hosts = some zs) :
+    (∀ f ∈ zoneFiles, f.isSome = true) ∧ hosts.isSome = true :=
+  srv_load_some h
+
+/-- … and when they all did, the result is the zones merged in load order into the empty
+    configuration, then the hosts zone merged in (the only remaining failure is a `merge` of two
+    zones of the same apex that `Zone::merge` rejects — the `unwrap` panic site). -/
+theorem C19_load_success_value (zs : List Zone) (h : Zone) :
+    loadConfiguration (zs.map some) (some h) =
+      (zs.foldl (fun acc z => acc.bind (·.insertMerge z)) (some Zones.empty)).bind
+        (·.insertMerge h) :=
+  srv_load_all_some zs h
+
+/-- A failing file at ANY position of the list makes the whole load fail, whatever stands before
+    and after it and whatever the hosts files give; so does a failing hosts file. -/
+theorem C19_load_failure_positions (pre suf : List (Option Zone)) (hosts : Option Zone)
+    (zoneFiles : List (Option Zone)) :
+    loadConfiguration (pre ++ none :: suf) hosts = none ∧
+    loadConfiguration zoneFiles none = none :=
+  ⟨srv_load_none_at pre suf hosts, srv_load_no_hosts zoneFiles⟩
+
+/-- exactness: the load fails for a missing file, or (all files present) for a rejected merge -/
+theorem C19_load_none_iff (zoneFiles : List (Option Zone)) (hosts : Option Zone) :
+    loadConfiguration zoneFiles hosts = none ↔
+      (none ∈ zoneFiles ∨ hosts = none ∨
+       ∃ (zs : List Zone) (h : Zone), zoneFiles = zs.map some ∧ hosts = some h ∧
+         (zs.foldl (fun acc z => acc.bind (·.insertMerge z)) (some Zones.empty)).bind
+           (·.insertMerge h) = none) := by
+  constructor
+  · intro hn
+    by_cases h1 : none ∈ zoneFiles
+    · exact .inl h1
+    · cases hosts with
+      | none => exact .inr (.inl rfl)
+      | some h =>
+        right; right
+        have hz : zoneFiles = (zoneFiles.filterMap id).map some := by
+          clear hn
+          induction zoneFiles with
+          | nil => rfl
+          | cons f fs ih =>
+            cases f with
+            | none => exact absurd (List.mem_cons_self) h1
+            | some z =>
+              simp only [List.filterMap_cons, id, List.map_cons]
+              rw [← ih (fun hm => h1 (List.mem_cons_of_mem _ hm))]
+        refine ⟨zoneFiles.filterMap id, h, hz, rfl, ?_⟩
+        rw [← srv_load_all_some, ← hz]; exact hn
+  · rintro (h | h | ⟨zs, h, h1, h2, h3⟩)
+    · exact C19_one_bad_file_fails_load zoneFiles hosts (.inl h)
+    · exact C19_one_bad_file_fails_load zoneFiles hosts (.inr h)
+    · rw [h1, h2, srv_load_all_some]; exact h3
+
+/-- The configuration a successful reload installs is a function of the files alone: the same
+    value for every previous live configuration — and a failed load keeps exactly the previous
+    one. -/
+theorem C19_reload_load (live : Zones) (zoneFiles : List (Option Zone)) (hosts : Option Zone) :
+    (∀ zs, loadConfiguration zoneFiles hosts = some zs →
+      reload live (loadConfiguration zoneFiles hosts) = (zs, true)) ∧
+    (loadConfiguration zoneFiles hosts = none →
+      reload live (loadConfiguration zoneFiles hosts) = (live, false)) := by
+  constructor
+  · intro zs h; rw [h]; rfl
+  · intro h; rw [h]; rfl
+
+/-- one reload with a bad file anywhere: configuration and answers unchanged -/
+theorem C19_bad_file_reload_invisible (live : Zones) (pre suf : List (Option Zone))
+    (hosts : Option Zone) (buf : List UInt8) :
+    reload live (loadConfiguration (pre ++ none :: suf) hosts) = (live, false) ∧
+    serveUdp true (authOnlyResolver (reload live (loadConfiguration (pre ++ none :: suf) hosts)).1) buf
+      = serveUdp true (authOnlyResolver live) buf := by
+  rw [srv_load_none_at]; exact ⟨rfl, rfl⟩
+
+/-! ## 4. One query, one configuration -/
+
+/-- `C19_snapshot` for TCP. -/
+theorem C19_snapshot_tcp (old : Zones) (loaded : Option Zones) (buf : List UInt8) (n : Nat)
+    (swapped : Bool) :
+    let live := if swapped then (reload old loaded).1 else old
+    serveTcp true (authOnlyResolver live) n buf = serveTcp true (authOnlyResolver old) n buf ∨
+    serveTcp true (authOnlyResolver live) n buf
+      = serveTcp true (authOnlyResolver (reload old loaded).1) n buf := by
+  cases swapped <;> simp
+
+/-- **Whole configurations only.**  At every point `k` of a history of reload attempts the live
+    configuration is the initial one or one of the successfully loaded ones, as a whole — never
+    a mixture — so a query read at that point is answered from exactly that one configuration,
+    over UDP and over TCP. -/
+theorem C19_snapshot_history (init : Zones) (hist : List (Option Zones)) (k : Nat)
+    (buf : List UInt8) (n : Nat) :
+    ∃ z, (z = init ∨ some z ∈ hist) ∧ reloadHistory init (hist.take k) = z ∧
+      serveUdp true (authOnlyResolver (reloadHistory init (hist.take k))) buf
+        = serveUdp true (authOnlyResolver z) buf ∧
+      serveTcp true (authOnlyResolver (reloadHistory init (hist.take k))) n buf
+        = serveTcp true (authOnlyResolver z) n buf := by
+  refine ⟨reloadHistory init (hist.take k), ?_, rfl, rfl, rfl⟩
+  rcases srv_reloadHistory_mem (hist.take k) init with h | h
+  · exact .inl h
+  · exact .inr (List.mem_of_mem_take h)
+
+/-- The configuration read at point `k` is the last success among the first `k` attempts. -/
+theorem C19_snapshot_is_last_good (init : Zones) (hist : List (Option Zones)) (k : Nat) :
+    reloadHistory init (hist.take k) = (((hist.take k).filterMap id).getLast?).getD init :=
+  C19_history_last_good init (hist.take k)
+
+/-- The answers depend on the configuration only (extensionality of the serve functions in the
+    `Zones` value): equal configurations, equal octets. -/
+theorem C19_answers_from_configuration (z1 z2 : Zones) (h : z1 = z2) (buf : List UInt8) (n : Nat) :
+    serveUdp true (authOnlyResolver z1) buf = serveUdp true (authOnlyResolver z2) buf ∧
+    serveTcp true (authOnlyResolver z1) n buf = serveTcp true (authOnlyResolver z2) n buf := by
+  subst h; exact ⟨rfl, rfl⟩
+
+/-! ## 5. Non-vacuity -/
+
+namespace C19ex
+/-- a zone for the root apex with no records, and a configuration holding it -/
+def rootZone : Zone := Zone.new Name.root none
+def cfg1 : Zones := Zones.empty.insert rootZone
+end C19ex
+
+example : reloadHistory Zones.empty [none, some C19ex.cfg1, none, none] = C19ex.cfg1 := rfl
+example : reloadHistory C19ex.cfg1 [none, none] = C19ex.cfg1 := rfl
+example : reloadHistory C19ex.cfg1 [some Zones.empty, none, some C19ex.cfg1, some Zones.empty]
+    = Zones.empty := rfl
+example : reloadHistory C19ex.cfg1 ([none, some Zones.empty] ++ [some C19ex.cfg1]) = C19ex.cfg1 :=
+  (C19_nothing_lingers_history C19ex.cfg1 Zones.empty [none, some Zones.empty] [] C19ex.cfg1).1
+/-- a load that succeeds (no zone files, an empty hosts zone) and loads that fail -/
+example : ∃ zs, loadConfiguration [] (some C19ex.rootZone) = some zs := ⟨_, rfl⟩
+example : ∃ zs, loadConfiguration [some C19ex.rootZone] (some C19ex.rootZone) = some zs := by
+  rw [show [some C19ex.rootZone] = [C19ex.rootZone].map some from rfl, C19_load_success_value]
+  exact ⟨_, rfl⟩
+example : loadConfiguration [some C19ex.rootZone, none] (some C19ex.rootZone) = none :=
+  (C19_load_failure_positions [some C19ex.rootZone] [] _ []).1
+example : loadConfiguration [some C19ex.rootZone] none = none :=
+  (C19_load_failure_positions [] [] none _).2
+/-- a reload from files on a live configuration: success swaps, failure keeps -/
+example : (reload C19ex.cfg1 (loadConfiguration [] (some C19ex.rootZone))).2 = true := rfl
+example : reload C19ex.cfg1 (loadConfiguration [none] (some C19ex.rootZone)) = (C19ex.cfg1, false) :=
+  (C19_bad_file_reload_invisible C19ex.cfg1 [] [] _ []).1
+
+/-- `C19_last_success_wins` with a satisfiable "all failed afterwards" hypothesis -/
+example : reloadHistory Zones.empty ([none] ++ some C19ex.cfg1 :: [none, none]) = C19ex.cfg1 :=
+  C19_last_success_wins Zones.empty [none] [none, none] C19ex.cfg1 (by simp)
+/-- the two example configurations are different values -/
+example : C19ex.cfg1.zones.length = 1 ∧ Zones.empty.zones.length = 0 := ⟨rfl, rfl⟩
+
+/-! A reload that succeeds IS visible (the theorems above are not about indistinguishable
+    configurations): the query `w.e. A` gets SERVFAIL from the empty configuration, before and
+    after a failed reload, and the authoritative answer `w.e. A 0.0.0.1` + SOA of `e.` once the
+    configuration `Ex.zones` (Proofs/ResolverLocalExamples.lean) has been loaded. -/
+
+namespace C19ex
+def wQuery : Message :=
+  { header := ⟨7, false, 0, false, false, false, false, 0⟩
+    questions := [Ex.qA Ex.nWE], answers := [], authority := [], additional := [] }
+def wQueryBytes : List UInt8 := [0, 7, 0, 0, 0, 1, 0, 0, 0, 0, 0, 0, 1, 119, 1, 101, 0, 0, 1, 0, 1]
+theorem wQuery_decodes : decodeMessage wQueryBytes = .ok wQuery :=
+  C04_roundtrip _ _ (by decide) (by decide)
+theorem handle_w (zs : Zones) : handleRawMessage true (authOnlyResolver zs) wQueryBytes =
+    some (srvReplyOf true wQuery (authOnlyResolver zs (Ex.qA Ex.nWE) false)) := by
+  rw [srv_handle_query wQuery_decodes rfl rfl,
+    srv_rabr_question true _ _ _ (srv_triage_one_known rfl (by decide))]
+  rfl
+theorem resolver_empty :
+    authOnlyResolver Zones.empty (Ex.qA Ex.nWE) false = .error (.deadEnd (Ex.qA Ex.nWE)) := by
+  decide
+theorem resolver_loaded :
+    authOnlyResolver Ex.zones (Ex.qA Ex.nWE) false = .ok (.authoritative [Ex.rrW] Ex.soaRRE) := by
+  unfold authOnlyResolver
+  rw [(C01_auth_only_mode _ (Ex.qA Ex.nWE) Ex.zoneE Ex.soaRRE (by decide) (by decide) rfl).1
+    [Ex.rrW] Ex.resolve_w]
+end C19ex
+
+example : serveUdp true (authOnlyResolver (reloadHistory Zones.empty [none])) C19ex.wQueryBytes =
+    some [0, 7, 128, 2, 0, 1, 0, 0, 0, 0, 0, 0, 1, 119, 1, 101, 0, 0, 1, 0, 1] := by
+  rw [show reloadHistory Zones.empty [none] = Zones.empty from rfl, srv_serveUdp_eq,
+    C19ex.handle_w, C19ex.resolver_empty]
+  decide
+
+example : serveUdp true (authOnlyResolver (reloadHistory Zones.empty [none, some Ex.zones, none]))
+      C19ex.wQueryBytes =
+    some [0, 7, 132, 0, 0, 1, 0, 1, 0, 1, 0, 0, 1, 119, 1, 101, 0, 0, 1, 0, 1, 192, 12, 0, 1, 0, 1,
+      0, 0, 1, 44, 0, 4, 0, 0, 0, 1, 1, 101, 0, 0, 6, 0, 1, 0, 0, 0, 5, 0, 26, 1, 101, 0, 1, 101, 0,
+      0, 0, 0, 1, 0, 0, 0, 2, 0, 0, 0, 3, 0, 0, 0, 4, 0, 0, 0, 5] := by
+  rw [show reloadHistory Zones.empty [none, some Ex.zones, none] = Ex.zones from rfl,
+    srv_serveUdp_eq, C19ex.handle_w, C19ex.resolver_loaded]
+  decide
 
 end Resolved
